@@ -1,5 +1,7 @@
 import Driver.TLVal
 import Mtv.TL.Decode
+import Mtv.TL.Encode
+import Mtv.Crypto.Crc32
 import Mtv.Gen.Registry
 namespace Driver.C15
 open Mtv Mtv.TL Driver Driver.TLVal
@@ -36,8 +38,110 @@ def parseGz? (s : String) : Option (List (Bytes × Bytes)) :=
 def gunzipOf (tbl : List (Bytes × Bytes)) (c : Bytes) : Option Bytes :=
   (tbl.find? (fun e => e.1 == c)).map (·.2)
 
-def fuelFor (bs : Bytes) (tbl : List (Bytes × Bytes)) : Nat :=
-  64 * (bs.length + (tbl.foldl (fun a e => a + e.2.length) 0)) + 4096
+/-- The fuel every operation is decoded with: `fuelBound` (Mtv/TL/Decode.lean) for the registry of the
+working tree, the length of the input and the longest text a packed object unpacks to in this operation
+(`G`; every `gunzip` used below answers only texts of at most that length). Theorem `decode_never_loops`
+(Props/C15): with this fuel neither entry point reports the fuel error, whatever the input — so a fuel error
+printed by this driver (`fuel-exhausted`, which the Go side never prints) would refute the model, not
+the input. -/
+def fuelFor (bs : Bytes) (G : Nat) : Nat := fuelBound Mtv.Gen.registry G bs.length
+
+def tblG (tbl : List (Bytes × Bytes)) : Nat := tbl.foldl (fun a e => max a e.2.length) 0
+
+/-- as `showOutcome`, with the model's own fuel error told apart from the decoder's errors -/
+def showOut (o : Outcome Val) : String :=
+  match o with
+  | .err "fuel" => "fuel-exhausted"
+  | o => showOutcome o
+
+/-! ### packed objects nested to any depth (`c15.nest`): the input is built here exactly as the Go side builds
+it — gzip members whose deflate stream consists of stored blocks, so that n levels are n·39 bytes — and the
+model's `gunzip` is the reader of such members -/
+
+partial def storedBlocks (p : Bytes) : Bytes :=
+  if p.length ≤ 65535 then [1] ++ leBytes p.length 2 ++ leBytes (65535 - p.length) 2 ++ p
+  else [0, 0xff, 0xff, 0, 0] ++ p.take 65535 ++ storedBlocks (p.drop 65535)
+
+/-- RFC 1952 member: header without optional parts, stored blocks, CRC-32 and length of the text -/
+def storedGzip (p : Bytes) : Bytes :=
+  [0x1f, 0x8b, 8, 0, 0, 0, 0, 0, 0, 0xff] ++ storedBlocks p ++
+    leBytes (Mtv.Crypto.crc32 p) 4 ++ leBytes (p.length % 2 ^ 32) 4
+
+partial def inflateStored (b acc : Bytes) : Option Bytes :=
+  match b with
+  | hd :: l0 :: l1 :: n0 :: n1 :: rest =>
+    let len := l0.toNat + 256 * l1.toNat
+    if hd > 1 then none
+    else if n0.toNat + 256 * n1.toNat != 65535 - len then none
+    else if rest.length < len then none
+    else
+      let acc' := acc ++ rest.take len
+      if hd == 1 then some acc' else inflateStored (rest.drop len) acc'
+  | _ => none
+
+/-- what `GzipPacked.popMessageAsBytes` gets from a member of that shape (it ignores the trailer's verdict) -/
+def gunzipStored (b : Bytes) : Option Bytes :=
+  match b with
+  | 0x1f :: 0x8b :: 8 :: 0 :: _ :: _ :: _ :: _ :: _ :: _ :: body => inflateStored body []
+  | _ => none
+
+/-- `gunzipStored`, answering only texts of at most `G` bytes (the hypothesis of `decode_never_loops`) -/
+def gunzipStoredUpTo (G : Nat) (b : Bytes) : Option Bytes :=
+  match gunzipStored b with
+  | some y => if y.length ≤ G then some y else none
+  | none => none
+
+def packLevel (inner : Bytes) : Option Bytes :=
+  match putMessage (storedGzip inner) with
+  | .ok s => some (leBytes 0x3072cfa1 4 ++ s)
+  | _ => none
+
+/-- `n` levels around `core`: level `g` = gzip_packed, level `rg` = rpc_result holding a gzip_packed -/
+def nestBytes (level : String) : Nat → Bytes → Option Bytes
+  | 0, b => some b
+  | n + 1, b => do
+    let inner ← nestBytes level n b
+    let g ← packLevel inner
+    if level == "rg" then pure (leBytes 0xf35c6d01 4 ++ leBytes (n + 1) 8 ++ g) else pure g
+
+def placeBytes (place : String) (x : Bytes) : Option Bytes :=
+  match place with
+  | "root" => some x
+  | "rpc" => some (leBytes 0xf35c6d01 4 ++ leBytes 7 8 ++ x)
+  | "cont" => some (leBytes 0x73f1f8dc 4 ++ leBytes 1 4 ++ leBytes 0x5e0b700a00000001 8 ++ leBytes 1 4 ++ leBytes x.length 4 ++ x)
+  | _ => none
+
+/-! ### repeated groups whose counts are as large as the guard allows (`c15.rep`) -/
+
+def countFor (mode : String) (left : Nat) : Option Nat :=
+  match mode with
+  | "left" => some left
+  | "leftp1" => some (left + 1)
+  | "left4" => some (left / 4)
+  | "left12" => some (left / 12)
+  | "max31" => some (2 ^ 31 - 1)
+  | "one" => some 1
+  | "two" => some 2
+  | _ => none
+
+/-- `off` = position of a 4-byte count inside the segment (`none`: the segment has none); the count is computed
+from the number of bytes that follow the count in the whole input -/
+def patchSeg (mode : String) (total start : Nat) (seg : Bytes) (off : Option Nat) : Option Bytes :=
+  match off with
+  | none => some seg
+  | some o =>
+    if seg.length < o + 4 then none else
+    (countFor mode (total - (start + o + 4))).map fun c => seg.take o ++ leBytes c 4 ++ seg.drop (o + 4)
+
+def repBytes (mode : String) (pre : Bytes) (preOff : Option Nat) (unit : Bytes) (off : Option Nat) (k : Nat)
+    (suffix : Bytes) : Option Bytes := do
+  let total := pre.length + k * unit.length + suffix.length
+  let p ← patchSeg mode total 0 pre preOff
+  let us ← (List.range k).mapM fun i => patchSeg mode total (pre.length + i * unit.length) unit off
+  pure (p ++ us.flatten ++ suffix)
+
+def parseOff? (s : String) : Option (Option Nat) :=
+  if s == "-" then some none else s.toNat?.map some
 
 /-- one member of a concurrent batch: `u/<bytes>/<hints>` (unknown object) or `n/<id>/<bytes>` (named
 type); no gzip_packed inside (the generator leaves such inputs out of the batches) -/
@@ -45,11 +149,11 @@ def parMember (s : String) : Option String :=
   match s.splitOn "/" with
   | ["u", b, hints] =>
     match parseBytes? b, parseHints? hints with
-    | some bs, some hs => some (showOutcome (decodeUnknown Mtv.Gen.registry (gunzipOf []) (fuelFor bs []) hs bs))
+    | some bs, some hs => some (showOut (decodeUnknown Mtv.Gen.registry (gunzipOf []) (fuelFor bs 0) hs bs))
     | _, _ => none
   | ["n", id, b] =>
     match hexNat? id.toList, parseBytes? b with
-    | some id, some bs => some (showOutcome (decodeNamed Mtv.Gen.registry (gunzipOf []) (fuelFor bs []) id bs))
+    | some id, some bs => some (showOut (decodeNamed Mtv.Gen.registry (gunzipOf []) (fuelFor bs 0) id bs))
     | _, _ => none
   | _ => none
 
@@ -66,13 +170,40 @@ def handle : List String → String
   | ["c15.unk", b, hints, gz] =>
     match parseBytes? b, parseHints? hints, parseGz? gz with
     | some bs, some hs, some tbl =>
-      showOutcome (decodeUnknown Mtv.Gen.registry (gunzipOf tbl) (fuelFor bs tbl) hs bs)
+      showOut (decodeUnknown Mtv.Gen.registry (gunzipOf tbl) (fuelFor bs (tblG tbl)) hs bs)
     | _, _, _ => "bad-op"
   | ["c15.named", id, b, gz] =>
     match hexNat? id.toList, parseBytes? b, parseGz? gz with
     | some id, some bs, some tbl =>
-      showOutcome (decodeNamed Mtv.Gen.registry (gunzipOf tbl) (fuelFor bs tbl) id bs)
+      showOut (decodeNamed Mtv.Gen.registry (gunzipOf tbl) (fuelFor bs (tblG tbl)) id bs)
     | _, _, _ => "bad-op"
+  -- `c15.nest <place> <level> <n> <core> <hints>`: packed objects nested n deep around `core`
+  | ["c15.nest", place, level, n, core, hints] =>
+    match n.toNat?, parseBytes? core, parseHints? hints with
+    | some n, some core, some hs =>
+      if level != "g" && level != "rg" then "bad-op" else
+      match (nestBytes level n core).bind (placeBytes place) with
+      | some bs => showOut (decodeUnknown Mtv.Gen.registry (gunzipStoredUpTo bs.length) (fuelFor bs bs.length) hs bs)
+      | none => "bad-op"
+    | _, _, _ => "bad-op"
+  -- `c15.rep <target> <mode> <k> <pre> <preoff> <unit> <off> <suffix>`: pre, k times unit, suffix; counts by mode
+  | ["c15.rep", target, mode, k, pre, preOff, unit, off, suffix] =>
+    match k.toNat?, parseBytes? pre, parseOff? preOff, parseBytes? unit, parseOff? off, parseBytes? suffix with
+    | some k, some pre, some preOff, some unit, some off, some suffix =>
+      match repBytes mode pre preOff unit off k suffix with
+      | none => "bad-op"
+      | some bs =>
+        match target.splitOn ":" with
+        | ["u", hints] =>
+          match parseHints? hints with
+          | some hs => showOut (decodeUnknown Mtv.Gen.registry (gunzipOf []) (fuelFor bs 0) hs bs)
+          | none => "bad-op"
+        | ["n", id] =>
+          match hexNat? id.toList with
+          | some id => showOut (decodeNamed Mtv.Gen.registry (gunzipOf []) (fuelFor bs 0) id bs)
+          | none => "bad-op"
+        | _ => "bad-op"
+    | _, _, _, _, _, _ => "bad-op"
   | _ => "bad-op"
 
 end Driver.C15
